@@ -263,6 +263,25 @@ static void op_fullcase(const V &a, V &r) {
     delete_LweSample(res); delete_LweSample(u); delete_LweSample(x);
 }
 
+// ksbias lambda seed count : 'count' key-switching keys generated by lweCreateKeySwitchKey for the default set 'lambda' (random binary keys); for each the
+//   constant every key switch under it adds to the phase on average:  -(1/base) * sum over rows (i,j,h>=1) of the row error (units of 2^-32).
+//   prints max |bias|, then the biases
+static void op_ksbias(const V &a, V &r) {
+    TFheGateBootstrappingParameterSet *P = new_default_gate_bootstrapping_parameters((int) a[0]);
+    uint32_t seed = (uint32_t) a[1]; tfhe_random_generator_setSeed(&seed, 1);
+    const LweParams *lp = P->in_out_params; const LweParams *xp = &P->tgsw_params->tlwe_params->extracted_lweparams;
+    const int n = lp->n, Nx = xp->n, t = P->ks_t, bb = P->ks_basebit, base = 1 << bb; ll mx = 0; V bs;
+    for (int q = 0; q < (int) a[2]; q++) {
+        LweKey *kin = new_LweKey(xp), *kout = new_LweKey(lp); lweKeyGen(kin); lweKeyGen(kout);
+        LweKeySwitchKey *ks = new_LweKeySwitchKey(Nx, t, bb, lp); lweCreateKeySwitchKey(ks, kin, kout);
+        long double sum = 0;
+        for (int i = 0; i < Nx; i++) for (int j = 0; j < t; j++) for (int h = 1; h < base; h++)
+            sum += (long double) (int32_t) (lwePhase(&ks->ks[i][j][h], kout) - (int32_t) ((uint32_t) (kin->key[i] * h) << (32 - (j + 1) * bb)));
+        ll bias = (ll) (-sum / base); bs.push_back(bias); if (llabs(bias) > mx) mx = llabs(bias);
+        delete_LweKeySwitchKey(ks); delete_LweKey(kout); delete_LweKey(kin);
+    }
+    r.push_back(mx); for (ll b : bs) r.push_back(b);
+}
 // gatecase spec g a1(n) b1 a2(n) b2 a3(n) b3 -> phase(result) decrypted-bit result(a.., b)
 static void op_gatecase(const V &a, V &r) {
     need_keys(a);
@@ -372,6 +391,7 @@ int main() {
         else if (op == "decbit") op_decbit(a, r);
         else if (op == "brpair") op_brpair(a, r);
         else if (op == "fullkey") op_fullkey(a, r);
+        else if (op == "ksbias") op_ksbias(a, r);
         else if (op == "fullcase") op_fullcase(a, r);
         else if (op == "gatecase") op_gatecase(a, r);
         else if (op == "encdec") op_encdec(a, r);
